@@ -5,6 +5,31 @@ use crate::query::Query;
 
 impl Query for Comparison {
     fn process<'a, T: Queryable>(&self, state: State<'a, T>) -> State<'a, T> {
+        #[cfg(feature = "verif-hooks")]
+        if crate::verif::armed() {
+            let (l, r) = self.vals();
+            let (lhs, rhs) = crate::verif::muted(|| {
+                (
+                    crate::verif::operand(&l.process(state.clone())),
+                    crate::verif::operand(&r.process(state.clone())),
+                )
+            });
+            let out = crate::verif::reenter(|| self.process(state));
+            crate::verif::emit(crate::verif::Event::Cmp {
+                op: match self {
+                    Comparison::Eq(..) => "==",
+                    Comparison::Ne(..) => "!=",
+                    Comparison::Gt(..) => ">",
+                    Comparison::Gte(..) => ">=",
+                    Comparison::Lt(..) => "<",
+                    Comparison::Lte(..) => "<=",
+                },
+                lhs,
+                rhs,
+                verdict: crate::verif::verdict(&out),
+            });
+            return out;
+        }
         let root = state.root;
         let (lhs, rhs) = self.vals();
         let lhs = lhs.process(state.clone());
